@@ -206,6 +206,17 @@ static std::string listed(SDAI_Application_instance *inst, const char *owner, co
     }
     return "<absent>";
 }
+// the STEPattribute of an instance for (owner entity, registered attribute name)
+static STEPattribute *attrOf(SDAI_Application_instance *inst, const char *owner, const char *attr) {
+    int n = inst->AttributeCount();
+    for (int i = 0; i < n; i++) {
+        STEPattribute &a = inst->attributes[i];
+        if (lower(a.aDesc->Owner().Name()) == owner && !strcmp(a.aDesc->Name(), attr)) return &a;
+    }
+    return 0;
+}
+static std::string aggStr(const STEPaggregate *a) { std::string s; if (!a) return "<null>"; a->asStr(s); return s; }
+static std::string selStr(const SDAI_Select *a) { std::string s; if (!a) return "<null>"; a->STEPwrite(s); return s; }
 #ifdef C02_ACC
 #include "c02_acc.inc"
 #endif
